@@ -84,6 +84,11 @@ package federation
 //@   ghost narrowed = false
 //@   at! `append(same, rep)` requires err == nil && name == resolverName
 //@   at! `append(other, rep)` requires err == nil && name != resolverName && resolverName != ""
+// the surviving batch only ever grows by such an append: it is never taken over wholesale from the unchecked group
+//@   ghost pending = false
+//@   at! `append(same, rep)` ghost pending = true
+//@   at! `assign same` requires pending
+//@   at! `assign same` ghost pending = false
 //@   at! `assign reps` requires rhs0 == same
 //@   at! `assign reps` ghost narrowed = true
 //@   callsite FindMany*: requires narrowed
